@@ -150,17 +150,25 @@ class Check(PropertyCheck):
     prop = "C52"
     design_ref = "§5 C52"
     level_text = ("Lean theorems over ALL histories (loads, adds, clears, option changes, requests) of the model of "
-                  "ServerPlayback with the matching key as a parameter: served_only_if_keys_equal, "
-                  "at_most_once_without_reuse, equal_keys_in_recording_order, reuse_serves_first, unmatched_as_configured, "
-                  "reindex_preserves_multiset, never_crashes (proved from the invariant `every flowmap bucket = the "
-                  "pending recordings with that key, in recording order`), plus key_eq_iff_fields for the model of the "
-                  "field selection in _hash. Model tied to the real addon by differential runs of random histories "
-                  "(outcome of every request, count, flowmap buckets in dict order, recorded list) and by comparing the "
-                  "equality classes of the real _hash with the Lean keyOf and with the statement's field list on request pairs.")
-    level_note = ("trusted: SHA-256/repr injectivity on key lists (a parameter of the model); urllib/multipart/urlencoded "
-                  "parsers and Headers.get deliver the fields (library, fed to keyOf as data); `host` of the statement is read "
-                  "as pretty_host (Host header preferred); response.copy()/refresh() not modelled (only which recording is "
-                  "served); recordings' requests are not mutated while loaded; the tie is differential, not a proof.")
+                  "ServerPlayback. Generic in the key function: served_only_if_keys_equal, at_most_once_without_reuse, "
+                  "equal_keys_in_recording_order, reuse_serves_first, serves_first_match (served r <=> r is the first pending "
+                  "recording with a response and an equal key), unmatched_as_configured, reindex_preserves_multiset, "
+                  "pending_in_recording_order, never_crashes (from the invariant `every flowmap bucket = the pending recordings "
+                  "with that key, in recording order`). With the real key inside the model (keyOf = transcription of the field "
+                  "selection of _hash for every combination of ignore_content/host/port/params/payload_params/use_headers and "
+                  "multipart/urlencoded/raw bodies): key_eq_iff_fields, agreeing_parts_same_key, content_agree_cases, "
+                  "agreeing_request_served_next (after any history a request is served exactly the first pending recording that "
+                  "has a response and agrees with it on all non-ignored parts), served_only_if_parts_agree. Tie: random "
+                  "histories run through the real addon and through the model twice — once with the equality classes of the "
+                  "real _hash as key function, once with the model's own keyOf on the parsed request parts (the model predicts "
+                  "which requests match) — comparing every outcome, count, the buckets in dict order and the recorded list; "
+                  "plus _hash vs keyOf vs the statement's field list on request pairs.")
+    level_note = ("trusted: SHA-256/repr injectivity on the key lists built by _hash (keyOf is the list before repr); "
+                  "urllib.parse.urlparse/parse_qsl, the multipart/urlencoded decoders and Headers.get deliver the request parts "
+                  "that keyOf consumes (library, fed as data); `host` of the statement is read as pretty_host (Host header "
+                  "preferred); multipart fields (bytes) and urlencoded fields (str) never compare equal unless both forms have "
+                  "no non-ignored field; response.copy()/refresh() not modelled (only which recording is served); recordings' "
+                  "requests are not mutated while loaded; the tie is differential, not a proof.")
     technique = "Lean 4 proof (invariant induction over histories) + differential model-vs-addon correspondence"
     rule = ("hist cases: a pool of <=6 request shapes drawn from small pools of method/scheme/host/port/path/query/body/"
             "form/header values (so keys collide and near-collide), <=8 recordings (some without response, some non-HTTP), "
